@@ -2020,13 +2020,16 @@ def complex_cases_r7(chk, tier, rng, svdmod, dcases, dmeta, RecRS):
         k_ = max(d1, d2) if n is None else min(n, max(d1, d2))
         p_ = S.shape[0]
         msg = None
-        if np.max(np.abs(U.conj().T @ U - np.eye(U.shape[1])), initial=0.0) > 1e-9 or np.max(np.abs(V @ V.conj().T - np.eye(V.shape[0])), initial=0.0) > 1e-9:
-            msg = "factors are not orthonormal (Hermitian inner product)"
-        elif min(k_ + n_over, max(d1, d2)) >= num_rank(sig):
-            if np.max(np.abs(np.real(S) - sig[:p_]), initial=0.0) > 1e-8 * sig.max():
-                msg = "S differs from the leading singular values although the rank is covered"
-            elif abs(float(np.sum(np.abs(M - (U[:, :p_] * S) @ V[:p_, :]) ** 2)) - float(np.sum(sig[p_:] ** 2))) > 1e-8 * float(np.sum(sig ** 2)):
-                msg = "error identity fails although the rank is covered"
+        try:
+            if np.max(np.abs(U.conj().T @ U - np.eye(U.shape[1])), initial=0.0) > 1e-9 or np.max(np.abs(V @ V.conj().T - np.eye(V.shape[0])), initial=0.0) > 1e-9:
+                msg = "factors are not orthonormal (Hermitian inner product)"
+            elif min(k_ + n_over, max(d1, d2)) >= num_rank(sig):
+                if np.max(np.abs(np.real(S) - sig[:p_]), initial=0.0) > 1e-8 * sig.max():
+                    msg = "S differs from the leading singular values although the rank is covered"
+                elif abs(float(np.sum(np.abs(M - (U[:, :p_] * S) @ V[:p_, :]) ** 2)) - float(np.sum(sig[p_:] ** 2))) > 1e-8 * float(np.sum(sig ** 2)):
+                    msg = "error identity fails although the rank is covered"
+        except (ValueError, IndexError) as e_:      # factors whose shapes do not fit together: a finding, not a harness error
+            msg = f"factors of inconsistent shapes {U.shape}, {S.shape}, {V.shape} ({str(e_)[:80]})"
         if msg:
             chk.finding("tensorly.tenalg.svd.randomized_svd", inp, msg + " (complex input)", "C05_complex")
         try:
